@@ -1,0 +1,38 @@
+//go:build verif
+
+package s2
+
+import "github.com/golang/geo/s1"
+
+type s1ChordAngle = s1.ChordAngle
+
+// Thin read-only accessors for the verification harness (property C10: bounds are
+// conservative). Add-only; no behaviour of the package changes.
+
+// VerifC10BounderState returns the running state of a RectBounder: the previous vertex,
+// its LatLng and the bound accumulated so far (before the final expansion of RectBound).
+func VerifC10BounderState(r *RectBounder) (Point, LatLng, Rect) { return r.a, r.aLL, r.bound }
+
+// VerifC10MonotoneChain runs monotoneChain on the given (already sorted) points.
+func VerifC10MonotoneChain(pts []Point) []Point {
+	q := &ConvexHullQuery{points: pts}
+	return q.monotoneChain()
+}
+
+// VerifC10HullPoints returns the query's current point slice (after ConvexHull it is the
+// de-duplicated input, sorted around the origin and then reversed).
+func VerifC10HullPoints(q *ConvexHullQuery) []Point { return q.points }
+
+// VerifC10SubregionBound returns the loop's subregion bound.
+func VerifC10SubregionBound(l *Loop) Rect { return l.subregionBound }
+
+// VerifC10CellUV returns the face and uv-rectangle of a cell.
+func VerifC10CellUV(c Cell) (face int, ulo, uhi, vlo, vhi float64) {
+	return int(c.face), c.uv.X.Lo, c.uv.X.Hi, c.uv.Y.Lo, c.uv.Y.Hi
+}
+
+// VerifC10CapRadius returns the cap's radius as the stored chord angle (squared chord length).
+func VerifC10CapRadius(c Cap) float64 { return float64(c.radius) }
+
+// VerifC10CapFromChord builds a cap from a centre and a raw chord angle.
+func VerifC10CapFromChord(center Point, r float64) Cap { return Cap{center: center, radius: s1ChordAngle(r)} }
